@@ -86,6 +86,12 @@ def collect(ex, final):
         for msg in c.contract:
             out.append(V(ex, 'gateway-contract', 'websocket|' + contract_class(msg),
                          'ws ?%s: %s' % (c.query, msg)))
+        if c.exc is not None and not c.accepted and not names_known_session(ex, c):
+            # a WebSocket request that names no session the server ever had (bad address, bad
+            # version, unknown id) is refused at admission like any other request: nothing may
+            # escape. Upgrade attempts on existing sessions are outside the statement.
+            out.append(V(ex, 'exception-escaped', 'websocket-refused|' + type(c.exc).__name__,
+                         'ws ?%s (headers %r): %r' % (c.query[:60], c.headers[:4], c.exc)))
     for c in w.calls:
         if c.name not in ('send', 'disconnect'):
             continue
@@ -101,6 +107,11 @@ def collect(ex, final):
                          '%s%r issued at %.3f has not returned by %.3f' % (
                              c.name, c.args, c.t_start - 2 ** 20, ex.now - 2 ** 20)))
     return out
+
+
+def names_known_session(ex, c):
+    sids = [ex.sid_of(s) for s in ex.sessions]
+    return any(x is not None and ('sid=' + x) in c.query for x in sids)
 
 
 def contract_class(msg):
@@ -148,7 +159,8 @@ PROFILE = {
     'config': {'transports': st.sampled_from([None, None, None, ['polling'], ['websocket']]),
                'ping_interval': st.sampled_from([1, 5, 25]),
                'ping_timeout': st.sampled_from([1, 5, 20]),
-               'max_http_buffer_size': st.sampled_from([1000000, 1000000, 50])},
+               'max_http_buffer_size': st.sampled_from([1000000, 1000000, 50]),
+               'http_compression': st.sampled_from([True, True, False])},
     'autopong': [True, True, False],
     'autopoll': [False, True],
     'disconnect_all_pct': 3,
